@@ -12,6 +12,7 @@ import (
 	"sort"
 	"strconv"
 	"strings"
+	"unicode/utf8"
 
 	"github.com/ohler55/slip"
 
@@ -758,6 +759,7 @@ func (m *runner) clFuncs(base outcome) {
 			}
 		}
 	}
+	m.rfsPositions(base)
 	f := c.Forms[0]
 	// the byte-wise path of cl:read re-reads a growing prefix; name the first leaf of the
 	// first form whose proper prefixes are hard errors for the pinned tree
@@ -789,17 +791,21 @@ func (m *runner) clFuncs(base outcome) {
 			break
 		}
 	}
-	for _, kind := range []string{"seekable", "bytewise"} {
+	for _, kind := range []string{"seekable", "bytewise", "bytewise-eof-with-last-byte"} {
 		var stream slip.Object
-		if kind == "seekable" {
+		switch kind {
+		case "seekable":
 			stream = slip.NewStringStream([]byte(T))
-		} else {
+		case "bytewise":
 			stream = slip.NewInputStream(newPieces(T, nil, 0))
+		default:
+			// the io.Reader contract allows the last bytes to arrive together with io.EOF
+			stream = slip.NewInputStream(newPieces(T, nil, mEOFLast))
 		}
 		res, err := callFn(m.scope, "read", slip.List{stream})
 		m.nread++
 		sig := "cl-read stream=" + kind
-		if kind == "bytewise" {
+		if kind != "seekable" {
 			sig += " first-form-holds=" + trigger
 		}
 		switch {
@@ -811,6 +817,69 @@ func (m *runner) clFuncs(base outcome) {
 			m.fail(sig+" got=other-object", "(read <%s stream on %q>) gives %s, ReadString gave %s (first form %q)", kind, T, show(res, true), base.vals[0], T[f.S:f.E])
 		default:
 			x.Cover("cl-read:" + kind + ":agrees")
+		}
+	}
+}
+
+// rfsPositions: the second value of read-from-string is an index into the STRING, in the
+// unit :start and :end use (characters), also for a text with multi-byte characters and
+// also when the reading started at :start > 0; without :preserve-whitespace it may lie
+// behind the blanks that follow the form, never further.
+func (m *runner) rfsPositions(base outcome) {
+	c, x := m.c, m.x
+	T := c.Text
+	ascii := isASCII(T)
+	chars := func(off int) int { return utf8.RuneCountInString(T[:off]) }
+	for i, f := range c.Forms {
+		if ascii && f.S == 0 {
+			continue // judged by clFuncs
+		}
+		for _, pw := range []bool{true, false} {
+			if ascii && pw {
+				continue // judged by clFuncs
+			}
+			args := slip.List{slip.String(T), nil, nil}
+			if pw {
+				args = append(args, slip.Symbol(":preserve-whitespace"), slip.True)
+			}
+			if 0 < f.S {
+				args = append(args, slip.Symbol(":start"), slip.Fixnum(chars(f.S)))
+			}
+			res, err := callFn(m.scope, "read-from-string", args)
+			m.nread++
+			vs, _ := res.(slip.Values)
+			if err != nil || len(vs) != 2 || show(vs[0], true) != base.vals[i] {
+				// what is read is judged elsewhere (ASCII) or is another finding's matter
+				x.Cover("read-from-string-position:object-not-comparable")
+				continue
+			}
+			after := f.E
+			for after < len(T) && strings.IndexByte(" \t\n\r", T[after]) >= 0 {
+				after++
+			}
+			got, _ := vs[1].(slip.Fixnum)
+			// without :preserve-whitespace any position from the end of the form to the end of the
+			// blanks behind it is one from which reading goes on with the same next object
+			ok := int(got) == chars(f.E) || !pw && chars(f.E) <= int(got) && int(got) <= chars(after)
+			if ok {
+				x.Cover("read-from-string-position:agrees")
+				continue
+			}
+			text := "ascii"
+			if !ascii {
+				text = "non-ascii"
+			}
+			sig := fmt.Sprintf("read-from-string-position text=%s preserve-whitespace=%s", text, map[bool]string{true: "t", false: "nil"}[pw])
+			if ascii {
+				sig = "read-from-string-position text=ascii start>0 preserve-whitespace=nil position=before-the-end-of-the-form"
+				if chars(after) < int(got) {
+					sig = "read-from-string-position text=ascii start>0 preserve-whitespace=nil position=beyond-the-following-blanks"
+				}
+			} else if pw && int(got) == f.E-f.S+chars(f.S) {
+				sig += " unit=bytes"
+			}
+			m.fail(sig, "(read-from-string %q nil nil%s :start %d): the form %q ends at character %d (%d after the blanks that follow), the second value is %d",
+				T, map[bool]string{true: " :preserve-whitespace t", false: ""}[pw], chars(f.S), T[f.S:f.E], chars(f.E), chars(after), int(got))
 		}
 	}
 }
